@@ -277,7 +277,7 @@ pub fn run_c05(p: &Params) -> Outcome {
     };
     out.merge(random("C05", p, n, &g, &nt, "c05-rand"));
     // large vectors (imbl chunks hold 64 elements)
-    let big = GenCfg { maxlen: 160, init_max: 130, vmax: 500, max_ops: 60, ..g };
+    let big = GenCfg { maxlen: 160, init_max: 130, vmax: 500, max_ops: 60, max_subs: 10, ..g };
     out.merge(random("C05", p, p.n(4_000, 60_000), &big, &nt, "c05-rand-large"));
     out
 }
@@ -331,7 +331,7 @@ pub fn run_c06(p: &Params) -> Outcome {
     ));
     let n = p.n(80_000, 1_000_000);
     let g = GenCfg {
-        caps: &[1, 2, 3, 5, 6, 16, 1000],
+        caps: &[1, 2, 3, 4, 5, 6, 7, 8, 9, 15, 16, 17, 31, 33, 1000],
         min_ops: 20,
         max_ops: 160,
         maxlen: 10,
@@ -346,7 +346,7 @@ pub fn run_c06(p: &Params) -> Outcome {
         init_max: 5,
     };
     out.merge(random("C06", p, n, &g, &nt, "c06-rand"));
-    let big = GenCfg { maxlen: 160, init_max: 130, vmax: 500, max_ops: 60, ..g };
+    let big = GenCfg { maxlen: 160, init_max: 130, vmax: 500, max_ops: 60, max_subs: 10, ..g };
     out.merge(random("C06", p, p.n(4_000, 60_000), &big, &nt, "c06-rand-large"));
     if out.violations.is_empty() && out.ev.get("resets_delivered") == 0 {
         out.inconclusive.push("no Reset was delivered in the whole run".into());
@@ -675,7 +675,7 @@ pub fn run_c17(p: &Params) -> Outcome {
         init_max: 5,
     };
     out.merge(random("C17", p, n, &g, &nt, "c17-rand"));
-    let big = GenCfg { maxlen: 160, init_max: 130, vmax: 500, max_ops: 60, ..g };
+    let big = GenCfg { maxlen: 160, init_max: 130, vmax: 500, max_ops: 60, max_subs: 10, ..g };
     out.merge(random("C17", p, p.n(3_000, 40_000), &big, &nt, "c17-rand-large"));
     out
 }
